@@ -69,6 +69,45 @@ def _owner_map(tree):
     return out
 
 
+def _rebound_names(tree):
+    """names of functions / methods that something other than a single `def` binds somewhere in the module: a second definition
+    (under an if, in a try), an assignment (wrapping, per-instance / class-level override `self._u16 = ...`), an import, `global`"""
+    count, out = {}, set()
+    for n in ast.walk(tree):
+        if isinstance(n, (ast.FunctionDef, ast.AsyncFunctionDef)):
+            count[n.name] = count.get(n.name, 0) + 1
+        elif isinstance(n, ast.Name) and isinstance(n.ctx, (ast.Store, ast.Del)):
+            out.add(n.id)
+        elif isinstance(n, ast.Attribute) and isinstance(n.ctx, (ast.Store, ast.Del)):
+            out.add(n.attr)
+        elif isinstance(n, (ast.Import, ast.ImportFrom)):
+            out |= {(a.asname or a.name).split('.')[0] for a in n.names}
+        elif isinstance(n, ast.Global):
+            out |= set(n.names)
+    # (methods of the same name in different classes are told apart by the class; two defs in one scope are not)
+    scopes = {}
+    for n in ast.walk(tree):
+        if isinstance(n, (ast.Module, ast.ClassDef)):
+            def deep(stmts, acc):
+                for st in stmts:
+                    if isinstance(st, (ast.FunctionDef, ast.AsyncFunctionDef)):
+                        acc[st.name] = acc.get(st.name, 0) + 1
+                    elif not isinstance(st, ast.ClassDef):
+                        for field in ('body', 'orelse', 'finalbody'):
+                            sub = getattr(st, field, None)
+                            if isinstance(sub, list) and sub and isinstance(sub[0], ast.stmt):
+                                deep(sub, acc)
+                        for h in getattr(st, 'handlers', []):
+                            deep(h.body, acc)
+            acc = {}
+            deep(n.body, acc)
+            out |= {k for k, v in acc.items() if v > 1}
+            # defined under a conditional: only the direct definitions are in the owner map
+            direct = {st.name for st in n.body if isinstance(st, (ast.FunctionDef, ast.AsyncFunctionDef))}
+            out |= {k for k in acc if k not in direct}
+    return out
+
+
 def _helper_table(funcs, names, for_cls=None):
     """name -> (FunctionDef, is_method) for the given qualified names; a bare name defined twice is dropped.  Methods are
     offered only to functions of their own class (for_cls)."""
@@ -76,6 +115,8 @@ def _helper_table(funcs, names, for_cls=None):
     for q in names:
         f, _, cls = funcs[q]
         if cls is not None and (for_cls is None or cls.name != for_cls.name):
+            continue
+        if f.name in _REBOUND[0]:
             continue
         if f.name in tab:
             dup.add(f.name)
@@ -86,6 +127,8 @@ def _helper_table(funcs, names, for_cls=None):
 
 
 _PARSED = {}
+_REBOUND = [frozenset()]
+_UNRESOLVED = [False]
 
 
 def _class_scope(tree, cls, side, depth=0):
@@ -93,15 +136,23 @@ def _class_scope(tree, cls, side, depth=0):
     the scope in which `self.attr is only ever bound to containers` is decided"""
     out = list(cls.body)
     if tree is None or depth > 3:
+        _UNRESOLVED[0] = _UNRESOLVED[0] or depth > 3
         return out
     for b in cls.bases:
         name = b.id if isinstance(b, ast.Name) else (b.attr if isinstance(b, ast.Attribute) else None)
-        if name is None or name == 'object':
+        if name == 'object':
             continue
+        if name is None or not isinstance(b, ast.Name):
+            _UNRESOLVED[0] = True       # base.Base, a call, a subscript: not followed
+            continue
+        found = False
         local = [st for st in tree.body if isinstance(st, ast.ClassDef) and st.name == name]
         if local:
             out += _class_scope(tree, local[0], side, depth + 1)
             continue
+        import builtins
+        if hasattr(builtins, name) and not any(isinstance(st, (ast.Import, ast.ImportFrom)) and any((a.asname or a.name) == name for a in st.names) for st in tree.body):
+            continue        # a builtin class (Exception, dict, ...): binds no attribute of ours
         for st in tree.body:
             if isinstance(st, ast.ImportFrom) and st.level == 0 and st.module and any((a.asname or a.name) == name for a in st.names):
                 real = [a.name for a in st.names if (a.asname or a.name) == name][0]
@@ -128,8 +179,16 @@ def _class_scope(tree, cls, side, depth=0):
                 if other is not None:
                     oc = [x for x in other.body if isinstance(x, ast.ClassDef) and x.name == real]
                     if oc:
+                        found = True
                         out += _class_scope(other, oc[0], side, depth + 1)
+                        bad_o = equiv.module_bad_attrs(other)
+                        _BASE_BAD[0] = None if (bad_o is None or _BASE_BAD[0] is None) else (_BASE_BAD[0] | bad_o)
+        if not found:
+            _UNRESOLVED[0] = True       # a base class that cannot be read: what it binds is unknown
     return out
+
+
+_BASE_BAD = [set()]
 
 
 def _called(f):
@@ -162,7 +221,12 @@ def _sized(tree, cls, side, f):
     bad = equiv.module_bad_attrs(tree) if tree is not None else None
     if bad is None:
         return set(), set()
+    _UNRESOLVED[0] = False
+    _BASE_BAD[0] = set()
     scope = _class_scope(tree, cls, side) if cls is not None else []
+    if _UNRESOLVED[0] or _BASE_BAD[0] is None:
+        return set(), set()
+    bad = bad | _BASE_BAD[0]
     out = []
     for fn in (equiv.sized_chains, equiv.sequence_chains):
         # attributes of self (decided over the class, its bases and every statement of the module that binds an attribute of that
@@ -186,7 +250,16 @@ def _ctx(tree, seqs, cls):
 
 def canonical_pair(f, cls, rf, cls_r, new_helpers, gone_helpers, cur_consts, ref_consts, cur_props=None, ref_props=None, cur_tree=None, ref_tree=None):
     s1, q1 = _sized(cur_tree, cls, 'cur', f)
+    u1 = _UNRESOLVED[0]
     s2, q2 = _sized(ref_tree, cls_r, 'ref', rf)
+    u2 = _UNRESOLVED[0]
+    # only what holds in both versions of the module is used for either
+    loc1, loc2 = {c for c in s1 if len(c) == 1}, {c for c in s2 if len(c) == 1}
+    s1, s2 = (s1 & s2) | loc1, (s1 & s2) | loc2
+    ql1, ql2 = {c for c in q1 if len(c) == 1}, {c for c in q2 if len(c) == 1}
+    q1, q2 = (q1 & q2) | ql1, (q1 & q2) | ql2
+    if (u1 or u2) and (cls is not None or cls_r is not None):
+        return None, None       # a base class that cannot be read may define properties, overrides, attribute defaults
     c1 = equiv.canonical(f, new_helpers, cur_consts, s1, cls.name if cls is not None else '', cur_props, equiv.module_dicts(cur_tree) if cur_tree is not None else None,
                          ctx=_ctx(cur_tree, q1, cls))
     if c1 is None:
@@ -200,6 +273,11 @@ def apply(cur_tree, ref_tree, prepare):
     """prepare: callable(tree) applying the loader's statement normalisations to the reference tree.
     Returns the list of qualified names analysed in their reference spelling."""
     prepare(ref_tree)
+    for t in (cur_tree, ref_tree):
+        for n in ast.walk(t):
+            if isinstance(n, ast.ImportFrom) and any(a.name == '*' for a in n.names) or isinstance(n, ast.Name) and n.id in ('globals', '__builtins__', 'exec', 'eval'):
+                return []       # names of this module may mean anything (star import, globals() edited by hand)
+    _REBOUND[0] = frozenset(_rebound_names(cur_tree) | _rebound_names(ref_tree))
     cur = _owner_map(cur_tree)
     ref = _owner_map(ref_tree)
     new_names = [q for q in cur if q not in ref]
@@ -209,6 +287,7 @@ def apply(cur_tree, ref_tree, prepare):
     all_gone = _helper_table(ref, gone_names, None)
     all_gone.update({k: v for c_ in {v[2].name: v[2] for v in ref.values() if v[2] is not None}.values() for k, v in _helper_table(ref, gone_names, c_).items()})
     gated = []
+    pasted_from = set()         # names mentioned by the current bodies of the gated functions (their helpers are among them)
     cur_consts = equiv.module_constants(cur_tree)
     ref_consts = equiv.module_constants(ref_tree)
     cur_props = equiv.module_properties(cur_tree)
@@ -228,8 +307,9 @@ def apply(cur_tree, ref_tree, prepare):
             # a duplicated block replaced by a call to a function that exists in both versions (or the reverse): paste the
             # functions that only one of the two versions of this function calls, each from its own tree
             called_c, called_r = _called(f), _called(rf)
-            only_c = _helper_table(cur, [x for x in _own(cur, cls, called_c - called_r) if x in ref and x != q], cls)
-            only_r = _helper_table(ref, [x for x in _own(ref, ref[q][2], called_r - called_c) if x in cur and x != q], ref[q][2])
+            # (only functions that are the same in both versions: the reference body is read in the current module)
+            only_c = _helper_table(cur, [x for x in _own(cur, cls, called_c - called_r) if x in ref and x != q and _dump(cur[x][0]) == _dump(ref[x][0])], cls)
+            only_r = _helper_table(ref, [x for x in _own(ref, ref[q][2], called_r - called_c) if x in cur and x != q and _dump(cur[x][0]) == _dump(ref[x][0])], ref[q][2])
             if only_c or only_r:
                 h1 = dict(new_helpers)
                 h1.update(only_c)
@@ -237,6 +317,15 @@ def apply(cur_tree, ref_tree, prepare):
                 h2.update(only_r)
                 c1, c2 = canonical_pair(f, cls, rf, ref[q][2], h1, h2, cur_consts, ref_consts, cur_props, ref_props, cur_tree, ref_tree)
         if c1 is None or c2 is None or c1 != c2:
+            continue
+        # the reference body is going to be read inside the current module: the module-level constants it mentions must have the
+        # value they had there, and the functions it calls that exist in both versions must be the same functions
+        rnames = {n.id for n in ast.walk(rf) if isinstance(n, ast.Name)} | {n.attr for n in ast.walk(rf) if isinstance(n, ast.Attribute)}
+        if any(k in rnames and (k not in cur_consts or ast.dump(cur_consts[k]) != ast.dump(v)) for k, v in ref_consts.items()):
+            continue
+        changed_fns = {x.split('.')[-1] for x in ref if x in cur and _dump(cur[x][0]) != _dump(ref[x][0]) and x != q}
+        called_only_ref = {c_.replace('self.', '') for c_ in (_called(rf) - _called(f))}
+        if called_only_ref & changed_fns:
             continue
         new_body = copy.deepcopy(rf.body)
         shift = f.lineno - rf.lineno
@@ -246,6 +335,7 @@ def apply(cur_tree, ref_tree, prepare):
                     n.lineno += shift
                 if hasattr(n, 'end_lineno') and n.end_lineno is not None:
                     n.end_lineno += shift
+        pasted_from |= {n.id for n in ast.walk(f) if isinstance(n, ast.Name)} | {n.attr for n in ast.walk(f) if isinstance(n, ast.Attribute)}
         f.body = new_body
         f._gated = True
         gated.append(q)
@@ -253,6 +343,8 @@ def apply(cur_tree, ref_tree, prepare):
     # read in the reference spelling are dropped with it; helpers the refactoring removed are not needed either
     if gated and all_new:
         for name, (h, is_method) in all_new.items():
+            if name not in pasted_from:
+                continue        # a new function that no gated function used: not a refactoring helper, it is analysed as it stands
             still = False
             for n in ast.walk(cur_tree):
                 if n is h:
